@@ -176,11 +176,11 @@ theorem stepConn_dich {xs : List WrAns} (hx : BadHead xs) (c : Conn) (hp : AllPr
               | ok sp => cases scripts <;> exact hpre
   | handler r h =>
     simp only [stepConn, extC, extE, ext_input]
-    rcases hh : handlerPoll (1000 + env.tr.input.length * 4 + (env.segs.map (·.2.length)).sum * 4 + r.sp.cap * 4)
+    rcases hh : handlerPoll (1000 + env.tr.input.length * 4 + (env.segs.map (·.2.length)).sum * 4 + r.sp.cap * 4 + scriptCost h)
       r h env with ⟨r1, h1, e1, hres⟩
     rcases handlerPoll_dich hx _ _ _ _ hph hh with hs | ⟨r2, h2, e2, res2, hh2, hst, hpre⟩
     · left
-      have hs' : handlerPoll (1000 + env.tr.input.length * 4 + (env.segs.map (·.2.length)).sum * 4 + r.sp.cap * 4)
+      have hs' : handlerPoll (1000 + env.tr.input.length * 4 + (env.segs.map (·.2.length)).sum * 4 + r.sp.cap * 4 + scriptCost h)
           r h { tr := ext xs env.tr, mutex := env.mutex, segs := env.segs } = (r1, h1, extE xs e1, hres) := hs
       rw [hs']
       cases hres with
@@ -194,7 +194,7 @@ theorem stepConn_dich {xs : List WrAns} (hx : BadHead xs) (c : Conn) (hp : AllPr
           split <;> rfl
     · right
       obtain ⟨x, rfl, he⟩ := hStop_cases hst
-      have hh2' : handlerPoll (1000 + env.tr.input.length * 4 + (env.segs.map (·.2.length)).sum * 4 + r.sp.cap * 4)
+      have hh2' : handlerPoll (1000 + env.tr.input.length * 4 + (env.segs.map (·.2.length)).sum * 4 + r.sp.cap * 4 + scriptCost h)
           r h { tr := ext xs env.tr, mutex := env.mutex, segs := env.segs } = (r2, h2, e2, .done (.error x)) := hh2
       rw [hh2']
       have hne : (x == IoErr.abortRequest) = false := by simpa [errStop] using he
